@@ -122,7 +122,25 @@ func init() {
 			return p.setBig(fr, a[0], p.mkBig(sym(p.ctx, p.bt(x), p.bt(y))))
 		})
 	}
-	divlike("Mod", (*big.Int).Mod, func(c *smt.Ctx, x, y *smt.Term) *smt.Term { return c.Mod(x, y) })
+	B("Mod", func(fr *frame, a []value) value {
+		p := fr.i.p
+		x, y := p.bigAt(fr, a[1]), p.bigAt(fr, a[2])
+		if y.c != nil {
+			if y.c.Sign() == 0 {
+				p.targetPanic(fr.caller, "division by zero")
+			}
+		} else if p.fork(p.ctx.Eq(y.t, p.ctx.IntC64(0)), "big division by zero") {
+			p.targetPanic(fr.caller, "division by zero")
+		}
+		if x.c != nil && y.c != nil {
+			return p.setBig(fr, a[0], bigval{c: new(big.Int).Mod(x.c, y.c)})
+		}
+		if y.c != nil && y.c.BitLen() >= 128 && p.eng.knownPrime(y.c) {
+			// residues modulo a curve order are kept in polynomial normal form
+			return p.setBig(fr, a[0], p.mkBig(p.canonMod(p.bt(x), p.bt(y))))
+		}
+		return p.setBig(fr, a[0], p.mkBig(p.ctx.Mod(p.bt(x), p.bt(y))))
+	})
 	divlike("Div", (*big.Int).Div, func(c *smt.Ctx, x, y *smt.Term) *smt.Term { return c.Div(x, y) })
 	truncQuo := func(c *smt.Ctx, x, y *smt.Term) *smt.Term {
 		q := c.Div(c.Abs(x), c.Abs(y))
